@@ -274,8 +274,12 @@ func finishRun(prop, tier string, seed int64, reps []*Report, verifDir, evidence
 		}
 	}
 	ruleCounts := map[string]int{}
+	ruleWhat := map[string]string{}
 	for _, o := range all {
 		ruleCounts[o.Rule]++
+		if _, ok := ruleWhat[o.Rule]; !ok {
+			ruleWhat[o.Rule] = o.What
+		}
 	}
 	var fl []string
 	for f := range funcs {
@@ -298,6 +302,7 @@ func finishRun(prop, tier string, seed int64, reps []*Report, verifDir, evidence
 			"rule":                "obligations are enumerated from the resolved program (SSA functions, call sites, field accesses, CFG paths under every valuation of the rule's finite atom domain); one obligation = one (rule, function, construct) instance; non-trivial = its discharge needed a path, dominance, dataflow or decision-table argument rather than a bare existence test; distinct = distinct obligation keys",
 			"samples":             samples,
 			"obligations_by_rule": ruleCounts,
+			"rules":               ruleWhat,
 			"functions_analysed":  fl,
 			"configs":             configs,
 			"tables":              tables,
